@@ -41,6 +41,20 @@ var builderProps = struct {
 type builder struct {
 	parseDepth int
 	firstInput query
+	// predInput is, while the condition of a predicate is being built, the step that the predicate
+	// filters: the node-set position() and last() refer to. (firstInput cannot serve for that: every
+	// location step inside the condition overwrites it, so that in a[b and position() = 2] or
+	// a[count(b) = position()] the function was bound to the step b.)
+	predInput query
+}
+
+// positionInput is the step position() and last() count in: inside a predicate the step being
+// filtered, elsewhere the step built last.
+func (b *builder) positionInput() query {
+	if b.predInput != nil {
+		return b.predInput
+	}
+	return b.firstInput
 }
 
 // axisPredicate creates a predicate to predicating for this axis node.
@@ -189,7 +203,10 @@ func (b *builder) processFilter(root *filterNode, flags flag, props *builderProp
 	firstInput := b.firstInput
 
 	var propsCond builderProp
+	outerPredInput := b.predInput
+	b.predInput = firstInput
 	cond, err := b.processNode(root.Condition, flags, &propsCond)
+	b.predInput = outerPredInput
 	if err != nil {
 		return nil, err
 	}
@@ -506,10 +523,10 @@ func (b *builder) processFunction(root *functionNode, props *builderProp) (query
 			},
 		}
 	case "last":
-		qyOutput = &functionQuery{Input: b.firstInput, Func: lastFunc()}
+		qyOutput = &functionQuery{Input: b.positionInput(), Func: lastFunc()}
 		*props |= builderProps.HasLast
 	case "position":
-		qyOutput = &functionQuery{Input: b.firstInput, Func: positionFunc()}
+		qyOutput = &functionQuery{Input: b.positionInput(), Func: positionFunc()}
 		*props |= builderProps.HasPosition
 	case "boolean", "number", "string":
 		var inp query
